@@ -16,15 +16,22 @@ UNIT_CAP = 100
 BUDGET_S = {'quick': 200, 'thorough': 1800}
 BOUNDS = {
     'quick': {'single character': 'EVERY Unicode scalar value (one symbolic character; the table forks it into its arms, the default arm stays symbolic)',
-              'strings': 'length 0..3 over {a key, its image, a half-width katakana key, any value that is not a key (symbolic)}'},
-    'thorough': {'single character': 'every Unicode scalar value', 'strings': 'length 0..4 over the same classes'},
+              'strings': 'length 0..3 over {a key, its image, a half-width katakana key, any value that is not a key (symbolic)}',
+              'token stream': 'texts of n characters over {a, b, CR, LF, any other non-key NUL-free value (symbolic)} x wl wsconst letters (each any of D,R,H,T,K,O,G) with n + wl <= 3; '
+                              'one model shape with symbolic weights'},
+    'thorough': {'single character': 'every Unicode scalar value', 'strings': 'length 0..4 over the same classes', 'token stream': 'n <= 4, wl <= 2'},
 }
 OUTSIDE = ('strings longer than the bound (character-count preservation for longer strings follows from the single push per loop iteration, which is an argument, '
-           'not a solver result); the Tantivy token stream clause is not decided yet in this round (see MANIFEST level_note)')
+           'not a solver result); token stream: texts longer than 3 characters, more than 2 wsconst letters, models other than the one shape with symbolic weights, '
+           'texts containing NUL (the core pipeline rejects them, so "breaks where the core pipeline breaks" is undefined; the adapter unwraps that error and panics — '
+           'recorded in DESIGN.md as outside the property, not as a finding); Tantivy itself (Token is a plain struct stub); the G filter in the differential part '
+           '(grapheme oracle answers may differ between the two runs)')
 EXPLANATION = ('KyteaFullwidthFilter::filter (MIR of vaporetto_rules) is executed symbolically on a one-character string whose character is ANY Unicode scalar '
                'value: the match forks into its arms and z3 decides, for every value, that the output is exactly one character, that filtering the output '
                'again changes nothing (idempotence), and that a character is changed only if it is a key of the table read from the current source; short '
-               'strings check that the number of characters is preserved.')
+               'strings check that the number of characters is preserved.  Token stream: VaporettoTokenizer::token_stream / advance / token (MIR of vaporetto_tantivy) run on a '
+               'symbolic text and wsconst string; in the same path the core pipeline (normalise, predict, line-break filter, configured filters) runs through the public API and '
+               'z3 decides that the tokens tile the original text, carry its substrings and consecutive positions and break exactly where the pipeline breaks.')
 ASSUMPTIONS = ['std String/char models of mirsym']
 MUST_REACH = ['one output character per input character', 'normaliser is idempotent', 'only table keys change', 'cover:default-arm', 'cover:mapped-arm',
               'tokens tile the original text and break where the core pipeline breaks', 'empty text yields no token']
